@@ -7,8 +7,16 @@ from vf import cN, cbool, cstr, clist, cpair
 from plugingen import IMPORTS, NODES, pod_key, cwdump, cnodes, conf_trees, conf_text
 
 DEPS = ["Strs", "Nets", "Pool", "NetsP", "PoolP", "Ipam", "IpamP", "Keys", "KeysP", "Plugin", "CorrBase", "Ipamc", "Pluginc",
-        "PluginInv", "PluginInvL", "PluginKeyFacts", "PluginIpamFacts", "PluginEnvP", "PluginUnbindP", "PluginBindP", "PluginP"]
+        "PluginInv", "PluginInvL", "PluginKeyFacts", "PluginIpamFacts", "PluginEnvP", "PluginUnbindP", "PluginBindP", "PluginP",
+        "PluginPool", "PluginC10Spec", "PluginC10P", "PluginWitness", "PluginPolicyP", "PluginPoolP", "PluginInfo", "PluginStickyP"]
 
+RULE_COMMON = ("well-formed histories of plugin sections and environment operations: regression scenarios of the repaired "
+               "defects, 'old versus new incarnation' races (kind x policy x requested ranges none/same/changed/multi x provider x "
+               "how the old pod ended x random interleavings of its event / resync items / API release / pod-IP sync with create / "
+               "filter / bind / run of the new pod, followed by late events, resync, reload, restart) and random histories (clean "
+               "faults at random call indices; one in five outside the well-formed domain, used for the correspondence only); each "
+               "history runs on the REAL FloatingIPPlugin and on Model/Plugin.v, comparing result, returned nodes / IPs, allocation "
+               "tables, store, pods, event queue and provider state after every step")
 S = ipamgen.s2ip
 POOL_A = {"nodeSubnets": ["10.1.0.0/24", "10.2.0.0/24"], "subnet": "10.100.0.0/24", "gateway": "10.100.0.1", "vlan": 2,
           "ranges": [[S("10.100.0.2"), S("10.100.0.9")]]}
@@ -424,5 +432,407 @@ def mon_c07(h, o, nwf, keys):
                 if k == "bind" and any(c[0] == "create" and not c[2] for c in st.get("calls") or []):
                     tags = [K2_TAG]          # Bind allocated a fresh IP for a pool pod: no cap is consulted there
                 out.append(("(mon_pool_cap %s %s %s %s)" % (cstr(name), cN(size), cwdump(prev), cwdump(d)), si, "pool_cap", tags))
+        prev = d
+    return out
+
+
+# ------------------------------------------------------------------ helpers for the python-side predicates
+def parse_range_str(s):
+    if "~" in s:
+        a, b = s.split("~")
+        return ipamgen.s2ip(a), ipamgen.s2ip(b)
+    return ipamgen.s2ip(s), ipamgen.s2ip(s)
+
+
+def in_range_list(rl, x):
+    return any(a <= x <= b for a, b in (parse_range_str(r) for r in rl))
+
+
+def eff_policy(s):
+    return 2 if s.get("Pool") else s.get("Policy", 0)
+
+
+def supports(s, policy):
+    if s["Kind"] in ("sts", "dp"):
+        return True
+    last = s["Name"].split("-")[-1]
+    return policy == 2 and last.isdigit()
+
+
+def prefix_key(s):
+    return ("pool__%s_" % s["Pool"]) if s.get("Pool") else "dp_%s_%s_" % (s["Ns"], s["App"])
+
+
+def lit(b):
+    return "true" if b else "false"
+
+
+def spec_index(h):
+    return {(s["Ns"], s["Name"], s["Uid"]): s for s in plugingen.all_specs(h)}
+
+
+def lister_spec(prev, specs, ns, name):
+    lp = [p for p in (prev or {"lister": []})["lister"] if p[0] == ns and p[1] == name]
+    return specs.get((ns, name, lp[0][2])) if lp else None
+
+
+# ------------------------------------------------------------------ C02
+def mon_c02(h, o, nwf, keys):
+    """sticky_bind / sticky_ranges / dp_takes_reserve on the implementation's dumps (python predicates, printed as literals)"""
+    out = []
+    specs = spec_index(h)
+    steps = (o.get("steps") or [])[:nwf]
+    prev = None
+    for si, (op, st) in enumerate(zip(h["ops"], steps)):
+        d = st.get("dump")
+        if d is None:
+            break
+        k = op["op"]
+        if prev is not None and k == "bind" and st.get("res") == "ok":
+            sp = lister_spec(prev, specs, op["ns"], op["name"])
+            if sp is not None:
+                key = pod_key(sp)
+                mine = [e[0] for e in prev["alloc"] if e[1] == key]
+                ips = st.get("ips") or []
+                if not sp.get("Ranges"):
+                    if mine:
+                        ok = len(ips) == 1 and ips[0] in mine and sorted(e[0] for e in d["alloc"]) == sorted(e[0] for e in prev["alloc"])
+                        out.append((lit(ok), si, "sticky_bind", []))
+                else:
+                    ok = len(ips) == len(sp["Ranges"])
+                    for i, rl in enumerate(sp["Ranges"]):
+                        held = sorted(x for x in mine if in_range_list(rl, x))
+                        if held and ok:
+                            ok = ips[i] in held
+                    out.append((lit(ok), si, "sticky_ranges", []))
+        if prev is not None and k == "filter" and st.get("res") == "ok":
+            sp = next((s for (ns, name, uid), s in specs.items() if ns == op["ns"] and name == op["name"] and
+                       any(p[0] == ns and p[1] == name and p[2] == uid for p in prev["pods"])), None)
+            if sp is not None and sp["Kind"] == "dp" and eff_policy(sp) != 0 and not sp.get("Ranges"):
+                key, pk = pod_key(sp), prefix_key(sp)
+                if not any(e[1] == key for e in prev["alloc"]) and any(e[1] == pk for e in prev["alloc"]):
+                    ok = sorted(e[0] for e in d["alloc"]) == sorted(e[0] for e in prev["alloc"])
+                    out.append((lit(ok), si, "dp_takes_reserve", []))
+        prev = d
+    return out
+
+
+def sticky_scenarios(rng, ctx, n):
+    """reschedule / rolling update: pods with immutable or never policy (statefulset, indexed bare pod, deployment, named pool)
+    are bound, deleted / evicted / lose their node, their events handled or dropped, and are scheduled again (same name for
+    statefulsets, new names for deployment replacement pods, surge = new pod before the old one is gone)"""
+    hs = []
+    conf = conf_text([POOL_A, POOL_B])
+    for i in range(n):
+        kind = rng.choice(["sts", "sts", "dp", "dppool", "bare"])
+        policy = rng.choice([1, 2]) if kind != "bare" else 2
+        provider = rng.random() < 0.3
+        ops = [{"op": "sts_set", "ns": "ns1", "name": "web", "replicas": 2}, {"op": "dp_set", "ns": "ns1", "name": "api", "replicas": 2}]
+        ranges = rng.choice([[], [], [["10.100.0.3~10.100.0.5"]], [["10.100.0.2"], ["10.100.0.6~10.100.0.7"]]]) if kind in ("sts", "bare") else []
+        uid = [0]
+
+        def newpod(j):
+            uid[0] += 1
+            if kind == "sts":
+                return mkpod("web-%d" % j, "s%d" % uid[0], "sts", "web", policy, ranges)
+            if kind == "bare":
+                return mkpod("solo-%d" % j, "s%d" % uid[0], "bare", "", policy, ranges)
+            return mkpod("api-7f9c6d-r%d" % uid[0], "s%d" % uid[0], "dp", "api", policy if kind == "dp" else 0, pool="p1" if kind == "dppool" else "")
+        live = {}
+        for step in range(rng.choice([3, 4, 6])):
+            j = rng.choice([0, 1])
+            old = live.get(j)
+            surge = kind in ("dp", "dppool") and rng.random() < 0.4
+            if old is not None and not surge:
+                how = rng.choice(["delete", "evict", "nodeloss"])
+                if how == "evict":
+                    ops += [phase(old, 3), inf(old)]
+                ops += [dele(old), inf(old)]
+                if rng.random() < 0.8:
+                    ops.append({"op": "event", "n": 0})
+                    if how == "evict":
+                        ops.append({"op": "event", "n": 0})
+                else:
+                    ops.append({"op": "drop_event", "n": 0})
+                    ops.append({"op": "resync", "ip": "@a%d" % rng.randrange(3)})
+            p = newpod(j)
+            ops += [put(p), inf(p), flt(p), bnd(p, "@approved:%d" % rng.randrange(3)), inf(p), phase(p, 1), inf(p)]
+            if old is not None and surge:
+                ops += [dele(old), inf(old), {"op": "event", "n": 0}]
+            live[j] = p
+        hs.append(("sticky:%s:p%d:%d" % (kind, policy, i), {"provider": provider, "nodes": NODES, "conf": conf, "ops": ops}))
+        ctx.dist("scenario:sticky")
+    return hs
+
+
+# ------------------------------------------------------------------ C03
+K1_TAG = "c03-dp-reserve-of-deleted-deployment"
+
+
+def policy_scenarios(rng, ctx, n):
+    """policies x kinds x scale down / up, app deleted before / after its pods, events handled or dropped; every history ends
+    with a quiescence phase: the informer catches up for every pod, every queued event is handled, one resync pass runs"""
+    hs = []
+    conf = conf_text([POOL_A, POOL_B])
+    for i in range(n):
+        ops = []
+        pods = []
+        apps = []
+        for kind in rng.sample(["sts", "dp", "dppool", "bare"], rng.choice([1, 2, 3])):
+            policy = rng.choice([0, 1, 2])
+            if kind == "sts":
+                ops.append({"op": "sts_set", "ns": "ns1", "name": "web", "replicas": 3})
+                apps.append(("sts_set", "web"))
+                for j in range(rng.choice([1, 2, 3])):
+                    pods.append(mkpod("web-%d" % j, "w%d_%d" % (i, j), "sts", "web", policy))
+            elif kind in ("dp", "dppool"):
+                app = "api" if kind == "dp" else "job"
+                ops.append({"op": "dp_set", "ns": "ns1", "name": app, "replicas": rng.choice([1, 2, 3])})
+                apps.append(("dp_set", app))
+                for j in range(rng.choice([1, 2, 3])):
+                    pods.append(mkpod("%s-7f9c6d-q%d" % (app, j), "d%d_%s%d" % (i, app, j), "dp", app, policy if kind == "dp" else 0,
+                                      pool="p1" if kind == "dppool" else ""))
+            else:
+                for nm in ("solo-1", "lonely"):
+                    pods.append(mkpod(nm, "b%d_%s" % (i, nm), "bare", "", rng.choice([0, 2])))
+        rng.shuffle(pods)
+        for p in pods:
+            ops += [put(p), inf(p), flt(p), bnd(p, "@approved:%d" % rng.randrange(3)), inf(p)]
+            if rng.random() < 0.7:
+                ops += [phase(p, 1), inf(p)]
+        # the life after: scale, delete apps, delete / finish pods, in random order; events handled, delayed or dropped
+        acts = []
+        for p in pods:
+            if rng.random() < 0.7:
+                acts.append([dele(p)] if rng.random() < 0.7 else [phase(p, rng.choice([2, 3]))])
+        for verb, app in apps:
+            r = rng.random()
+            if r < 0.35:
+                acts.append([{"op": verb, "ns": "ns1", "name": app, "replicas": rng.choice([0, 1, 2])}])
+            elif r < 0.6:
+                acts.append([{"op": verb, "ns": "ns1", "name": app, "replicas": None}])
+        rng.shuffle(acts)
+        for a in acts:
+            ops += a
+            if rng.random() < 0.5:
+                ops += [inf(rng.choice(pods))]
+            if rng.random() < 0.3:
+                ops.append({"op": rng.choice(["event", "event", "drop_event"]), "n": 0})
+        if i % 10 == 0:
+            # K1 shape: an immutable deployment pod is deleted, its event parks the IP under the app prefix, the deployment goes
+            k1 = mkpod("api-7f9c6d-leak", "k1_%d" % i, "dp", "api", 1)
+            ops += [{"op": "dp_set", "ns": "ns1", "name": "api", "replicas": 2}, put(k1), inf(k1), flt(k1), bnd(k1, "@approved:0"), inf(k1),
+                    dele(k1), inf(k1), {"op": "event", "n": 0}, {"op": "event", "n": 0}, {"op": "event", "n": 0},
+                    {"op": "dp_set", "ns": "ns1", "name": "api", "replicas": None}]
+            pods.append(k1)
+        quiesce = [inf(p) for p in pods] + [{"op": "event", "n": 0}] * (2 * len(pods)) + [{"op": "resync", "ip": "@a%d" % j} for j in range(8)]
+        hs.append(("policy:%d" % i, {"provider": rng.random() < 0.25, "nodes": NODES, "conf": conf, "ops": ops + quiesce, "_quiesce_from": len(ops)}))
+        ctx.dist("scenario:policy")
+    return hs
+
+
+def mon_c03(h, o, nwf, keys):
+    """release_only_when_licensed (never_kept, immutable_kept_sts), default_released_by_event and, at the end of a history
+    that ends with a quiescence phase, resync_pass_no_orphans - python predicates on the implementation's dumps"""
+    out = []
+    specs = spec_index(h)
+    byuid = {s["Uid"]: s for s in plugingen.all_specs(h)}
+    bykey = {}
+    for s in plugingen.all_specs(h):
+        bykey.setdefault(pod_key(s), s)
+    steps = (o.get("steps") or [])[:nwf]
+    prev = None
+    sts, dps = {}, {}
+    for si, (op, st) in enumerate(zip(h["ops"], steps)):
+        d = st.get("dump")
+        if d is None:
+            break
+        k = op["op"]
+        if k == "sts_set":
+            sts[(op["ns"], op["name"])] = op.get("replicas")
+        if k == "dp_set":
+            dps[(op["ns"], op["name"])] = op.get("replicas")
+        if prev is not None and k in ("event", "resync") and st.get("res") == "ok":
+            after = {e[0]: e for e in d["alloc"]}
+            ev_uid = (st.get("event_pod") or [None, None, None])[2]
+            for e in prev["alloc"]:
+                sp = bykey.get(e[1])
+                if sp is None:
+                    continue
+                pol = eff_policy(byuid[ev_uid]) if (k == "event" and ev_uid in byuid) else e[2]
+                if k == "event" and (ev_uid not in byuid or pod_key(byuid[ev_uid]) != e[1]):
+                    continue
+                if k == "resync" and ipamgen.s2ip(st.get("ip", "0.0.0.0")) != e[0] and not any(
+                        x[0] == ipamgen.s2ip(st.get("ip", "0.0.0.0")) and x[1] == e[1] for x in prev["alloc"]):
+                    continue
+                gone = e[0] not in after
+                if not gone:
+                    continue
+                keep = False
+                if pol == 2 and supports(sp, 2):
+                    keep = True
+                if pol == 1 and sp["Kind"] == "sts":
+                    r = sts.get((sp["Ns"], sp["App"]))
+                    idx = sp["Name"].split("-")[-1]
+                    keep = r is not None and idx.isdigit() and int(idx) < r
+                if keep:
+                    out.append(("false", si, "release_only_when_licensed(%s)" % ("never_kept" if pol == 2 else "immutable_kept_sts"), []))
+            if k == "event" and ev_uid in byuid and eff_policy(byuid[ev_uid]) == 0:
+                key = pod_key(byuid[ev_uid])
+                mine = [e for e in prev["alloc"] if e[1] == key]
+                if mine and all(e[4] in ("", ev_uid) for e in mine) and not any(c[2] for c in st.get("calls") or []) and \
+                        all(c[3] for c in st.get("cloudcalls") or []):
+                    out.append((lit(not any(e[0] in after for e in mine)), si, "default_released_by_event", []))
+        prev = d
+    qf = h.get("_quiesce_from")
+    if qf is not None and nwf >= len(h["ops"]) and steps and len(steps) == len(h["ops"]) and \
+            not any(c[2] for st in steps[qf:] for c in (st.get("calls") or [])) and \
+            all(c[3] for st in steps[qf:] for c in (st.get("cloudcalls") or [])):
+        d = steps[-1]["dump"]
+        live = {(p[0], p[1]) for p in d["pods"] if p[3] not in (2, 3)}
+        for e in d["alloc"]:
+            sp = bykey.get(e[1])
+            if sp is not None:
+                if (sp["Ns"], sp["Name"]) in live:
+                    continue
+                pol = e[2]
+                must_free = pol == 0 or not supports(sp, pol) or \
+                    (pol == 1 and sp["Kind"] == "sts" and (sts.get((sp["Ns"], sp["App"])) is None or
+                                                          not sp["Name"].split("-")[-1].isdigit() or
+                                                          int(sp["Name"].split("-")[-1]) >= sts[(sp["Ns"], sp["App"])])) or \
+                    sp["Kind"] == "dp"
+                if must_free:
+                    out.append(("false", len(steps) - 1, "resync_pass_no_orphans", []))
+            elif e[1].startswith("dp_") and e[1].endswith("_") and e[1].count("_") == 3:
+                ns, app = e[1].split("_")[1:3]
+                if dps.get((ns, app)) is None and e[2] == 1:
+                    out.append(("false", len(steps) - 1, "dp_reserve_released_with_its_deployment", [K1_TAG]))
+    return out
+
+
+# ------------------------------------------------------------------ C06
+K7_TAG = "c06-plain-key-holds-several-ips"
+
+
+def routing_scenarios(rng, ctx, n):
+    """random topologies (shared pod subnets, node subnets shared by several pools, nodes outside every subnet), fresh pods with
+    0-3 pairwise disjoint requested range lists (boundary addresses, ranges straddling pools and unconfigured addresses,
+    partially pre-owned after a first incarnation), filter followed by bind on a node the filter approved"""
+    hs = []
+    for i in range(n):
+        pools = plugingen.plugin_topology(rng)
+        ips = ipamgen.topo_ips(pools)
+        ops = [{"op": "sts_set", "ns": "ns1", "name": "web", "replicas": 3}, {"op": "dp_set", "ns": "ns1", "name": "api", "replicas": 3}]
+        for j in range(rng.choice([2, 3, 4])):
+            kind = rng.choice(["sts", "sts", "dp", "bare"])
+            nr = rng.choice([0, 0, 1, 2, 3]) if kind != "dp" else 0
+            ranges = []
+            pool = list(ips)
+            rng.shuffle(pool)
+            used = set()
+            for _ in range(nr):
+                if not pool:
+                    break
+                a = pool.pop()
+                b = a + rng.choice([0, 0, 1, 2])
+                if any(x in used for x in range(a - 0, b + 1)):
+                    continue
+                used.update(range(a, b + 1))
+                ranges.append([ipamgen.ip2s(a) if a == b else "%s~%s" % (ipamgen.ip2s(a), ipamgen.ip2s(b))])
+            name = {"sts": "web-%d" % j, "dp": "api-7f9c6d-c%d" % j, "bare": "solo-%d" % j}[kind]
+            policy = rng.choice([0, 0, 1, 2]) if kind != "bare" else rng.choice([0, 2])
+            p = mkpod(name, "c%d_%d" % (i, j), kind, "web" if kind == "sts" else "api", policy, ranges)
+            nodes = rng.sample(sorted(NODES), rng.choice([2, 3, 4])) + (["ghost"] if rng.random() < 0.1 else [])
+            ops += [put(p), inf(p), flt(p, nodes), bnd(p, "@approved:%d" % rng.randrange(4))]
+            if rng.random() < 0.4 and policy != 0:
+                # second incarnation with partially different ranges: pre-owned slots
+                ops += [inf(p), dele(p), inf(p), {"op": "event", "n": 0}]
+                p2 = dict(p, Uid=p["Uid"] + "x")
+                if ranges and rng.random() < 0.5 and pool:
+                    a = pool.pop()
+                    if a not in used:
+                        p2["Ranges"] = ranges[:1] + [[ipamgen.ip2s(a)]]
+                ops += [put(p2), inf(p2), flt(p2, nodes), bnd(p2, "@approved:%d" % rng.randrange(4))]
+        hs.append(("routing:%d" % i, {"provider": False, "nodes": NODES, "conf": conf_text(pools), "ops": ops}))
+        ctx.dist("scenario:routing")
+    # K7, deterministic shape (the outcome depends on Go's map order): a key holding two IPs of different pools, pod without ranges
+    PA = {"nodeSubnets": ["10.1.0.0/24", "10.2.0.0/24"], "subnet": "10.100.0.0/24", "gateway": "10.100.0.1", "vlan": 2, "ranges": [[S("10.100.0.2"), S("10.100.0.4")]]}
+    PB = {"nodeSubnets": ["10.1.0.0/24", "10.3.0.0/24"], "subnet": "10.101.0.0/24", "gateway": "10.101.0.1", "vlan": 0, "ranges": [[S("10.101.0.2"), S("10.101.0.3")]]}
+    for t in range(6):
+        A = mkpod("web-0", "uA", policy=2, ranges=[["10.100.0.3"], ["10.101.0.2"]])
+        B = mkpod("web-0", "uB", policy=2)
+        hs.append(("K7-plain-key-two-ips:%d" % t, {"provider": False, "nodes": NODES, "conf": conf_text([PA, PB]), "ops": [
+            {"op": "sts_set", "ns": "ns1", "name": "web", "replicas": 1}, put(A), inf(A), flt(A), bnd(A, "node1"), dele(A), inf(A), {"op": "event", "n": 0},
+            put(B), inf(B), flt(B, ["node2", "node3"]), bnd(B, "@approved:%d" % t)]}))
+    # F14 regression: three range lists in three pools without a common node subnet
+    P1 = {"nodeSubnets": ["10.1.0.0/24"], "subnet": "10.100.0.0/24", "gateway": "10.100.0.1", "vlan": 2, "ranges": [[S("10.100.0.2"), S("10.100.0.4")]]}
+    P2 = {"nodeSubnets": ["10.2.0.0/24"], "subnet": "10.101.0.0/24", "gateway": "10.101.0.1", "vlan": 0, "ranges": [[S("10.101.0.2"), S("10.101.0.3")]]}
+    P3 = {"nodeSubnets": ["10.3.0.0/24"], "subnet": "10.102.0.0/24", "gateway": "10.102.0.1", "vlan": 0, "ranges": [[S("10.102.0.2"), S("10.102.0.3")]]}
+    C = mkpod("web-0", "uC", ranges=[["10.100.0.2"], ["10.101.0.2"], ["10.102.0.2"]])
+    hs.append(("F14-three-ranges-no-common-subnet", {"provider": False, "nodes": NODES, "conf": conf_text([P1, P2, P3]), "ops": [
+        {"op": "sts_set", "ns": "ns1", "name": "web", "replicas": 1}, put(C), inf(C), flt(C), bnd(C, "@approved:0"), bnd(C, "node3")]}))
+    # F15 regression: held IPs lose their common node subnet by a reload, pod re-created with one more range
+    PAx = dict(PA, nodeSubnets=["10.2.0.0/24"])
+    PBx = dict(PB, nodeSubnets=["10.3.0.0/24"])
+    D1 = mkpod("web-0", "uD", policy=2, ranges=[["10.100.0.3"], ["10.101.0.2"]])
+    D2 = mkpod("web-0", "uE", policy=2, ranges=[["10.100.0.3"], ["10.101.0.2"], ["10.100.0.4"]])
+    hs.append(("F15-held-ips-without-common-subnet", {"provider": False, "nodes": NODES, "conf": conf_text([PA, PB]), "ops": [
+        {"op": "sts_set", "ns": "ns1", "name": "web", "replicas": 1}, put(D1), inf(D1), flt(D1), bnd(D1, "node1"), dele(D1), inf(D1), {"op": "event", "n": 0},
+        {"op": "reload", "conf": conf_text([PAx, PBx])}, put(D2), inf(D2), flt(D2), bnd(D2, "@approved:0")]}))
+    return hs
+
+
+def node_in_subnets(node_ip, subnets):
+    x = ipamgen.s2ip(node_ip)
+    for sn in subnets:
+        a, l = ipamgen.parse_subnet(sn) if isinstance(sn, str) else (sn[0], sn[1])
+        if l == 0 or (x >> (32 - l)) == (a >> (32 - l)):
+            return True
+    return False
+
+
+def mon_c06(h, o, nwf, keys):
+    """bind right after filter on an approved node: succeeds or waits for the deletion event (filter_then_bind); every IP written
+    is routable from the node (bind_routable) and carries its pool's mask / gateway / vlan (bind_info_configured)"""
+    out = []
+    specs = spec_index(h)
+    steps = (o.get("steps") or [])[:nwf]
+    prev = None
+    last_filter = {}          # (ns,name) -> (step index, approved nodes)
+    for si, (op, st) in enumerate(zip(h["ops"], steps)):
+        d = st.get("dump")
+        if d is None:
+            break
+        k = op["op"]
+        if k == "filter" and st.get("res") == "ok":
+            last_filter[(op["ns"], op["name"])] = (si, st.get("nodes") or [])
+        elif k == "bind" and prev is not None and st.get("res") != "skipped":
+            lf = last_filter.get((op["ns"], op["name"]))
+            node = st.get("node", op["node"])
+            sp = lister_spec(prev, specs, op["ns"], op["name"])
+            fresh = lf is not None and node in lf[1] and sp is not None and sp["Uid"] == st.get("uid")
+            if fresh:
+                tags = []
+                key = pod_key(sp)
+                mine = [e for e in prev["alloc"] if e[1] == key]
+                if not sp.get("Ranges") and len(mine) >= 2:
+                    tags = [K7_TAG]
+                injected = any(c[2] for c in st.get("calls") or []) or "injected" in (st.get("bindlog") or []) or \
+                    not all(c[3] for c in st.get("cloudcalls") or [])
+                if not injected:
+                    ok = st.get("res") == "ok" or "waiting for delete event" in (st.get("err") or "")
+                    out.append((lit(ok), si, "filter_then_bind", tags))
+                if st.get("res") == "ok":
+                    pools = {e[0]: e[6] for e in d["alloc"]}
+                    nip = h["nodes"].get(node)
+                    routable = nip is not None and all(x in pools and node_in_subnets(nip, pools[x][3]) for x in st.get("ips") or [])
+                    out.append((lit(routable), si, "bind_routable", tags))
+            if st.get("res") == "ok":
+                pools = {e[0]: e[6] for e in d["alloc"]}
+                ok = all(len(inf) == 4 and inf[0] in pools and [inf[1], inf[2], inf[3]] == list(pools[inf[0]][:3]) for inf in st.get("infos") or [])
+                out.append((lit(ok), si, "bind_info_configured", []))
+            last_filter.pop((op["ns"], op["name"]), None)
+        elif k != "informer":
+            last_filter = {}      # something else changed: "if nothing else changes" no longer holds for earlier filter results
         prev = d
     return out
